@@ -274,6 +274,49 @@ def rule_sizes(chk: Check, model, rid: str):
     chk.add(rid, "ring spread: oldest window entry over all slots and the whole window vs newest output over all slots", bool(oks),
             f"oldest needed = {T.show(mins[0].term)[-120:] if mins else None}, newest written = {T.show(maxs[0].term)[-100:] if maxs else None}; expected amin(windows[input].seq, axis=(2, 4)) "
             "and amax(<producer timings>.seq, axis=2)", chk.loc(f_bs, mins[0].node if mins else None))
+    # ... both taken cumulatively over the generations of a run: the newest output written *up to* a generation (prefix maximum) against
+    # the oldest entry any window *from that generation on* still names (suffix minimum). Per-generation values alone only cover the
+    # consumers scheduled in the very generation of the write
+    def _path(t):
+        """Wrappers from `t` down to the .seq.max/.seq.min reduction: list of 'acc:<ufunc>' / 'rev' tags, or None when something unknown is passed."""
+        tags = []
+        for _ in range(40):
+            if t[0] == "index":
+                if any(x[0] == "sl" and x[3] is not None and T.const_value(x[3]) == -1 for x in T.walk(t[2])):
+                    tags.append("rev")
+                t = t[1]
+            elif t[0] == "call":
+                nm = T.call_name(t)
+                if nm.endswith(".seq.max") or nm.endswith(".seq.min"):
+                    return tags
+                if nm.endswith(".accumulate") and t[2]:
+                    tags.append("acc:" + nm.split(".")[-2])
+                    t = t[2][0]
+                elif nm.split(".")[-1] in ("reshape", "filled") and not isinstance(t[1], str) and t[1][0] == "attr":
+                    t = t[1][1]
+                elif nm.split(".")[-1] in ("roll",) and t[2]:
+                    t = t[2][0]
+                else:
+                    return None
+            else:
+                return None
+        return None
+    okc = None
+    if oks and ok and len(apps) == 1:
+        d = T.sub(a, T.ONE)
+        rv = d[1][1] if d[0] == "call" and not isinstance(d[1], str) and d[1][0] == "attr" else None
+        if rv is not None and rv[0] == "num" and len(rv[1]) == 2 and all(len(mono) == 1 and mono[0][1] == 1 for mono, _ in rv[1]):
+            pos = [mono[0][0] for mono, c in rv[1] if c == 1]
+            neg = [mono[0][0] for mono, c in rv[1] if c == -1]
+            if len(pos) == 1 and len(neg) == 1:
+                pp, pn = _path(pos[0]), _path(neg[0])
+                if pp is not None and pn is not None and mentions(pos[0], ".seq.max") is not None and mentions(neg[0], ".seq.min") is not None:
+                    okc = pp == ["acc:maximum"] and pn == ["rev", "acc:minimum", "rev"]
+    if okc is None:
+        chk.unknown(rid, "ring spread is cumulative over the generations", "the requirement s.max() + 1 is not the difference of two recognisable chains over .seq.max / .seq.min", chk.loc(f_bs))
+    else:
+        chk.add(rid, "ring spread is cumulative over the generations", okc, "the newest output must pass through maximum.accumulate (prefix maximum over the generations) and the oldest "
+                "window entry through minimum.accumulate on the reversed axis (suffix minimum); found " + f"{pp} / {pn}", chk.loc(f_bs))
     # which schedule entries count for the ring size: exactly the slots that run (entries of masked slots are ignored); window entries
     # without a message (seq < 0) do count: they address the last ring slot, which must still hold the default output
     f_mt = model.func("base.Timings.get_masked_timings")
